@@ -1642,6 +1642,137 @@ def _memo_key_kind(ctx, f, loop, loop_vars, key, depth: int = 4):
     return ("unknown", "")
 
 
+# --------------------------------------------------------------------------------------------
+# R8 — whether an edge carries its own column index is decided by presence, not by truthiness
+# --------------------------------------------------------------------------------------------
+
+def _edge_index_keys(ctx, rid):
+    """Keys of the per-edge attribute dicts that _add_input writes besides the weight (the per-column index of the input edge),
+    together with their source/target counterparts."""
+    f = ctx.repo.get_func(REL, f"{CLS}._add_input")
+    keys = set()
+    for n in walk_shallow(f.node):
+        if isinstance(n, ast.Dict) and any(isinstance(k, ast.Constant) and k.value == "weight" for k in n.keys):
+            keys |= {k.value for k in n.keys if isinstance(k, ast.Constant) and isinstance(k.value, str) and k.value != "weight"}
+    attr_dicts = {t.id for st in walk_shallow(f.node) if isinstance(st, ast.Assign) and isinstance(st.value, ast.Dict)
+                  and any(isinstance(k, ast.Constant) and k.value == "weight" for k in st.value.keys)
+                  for t in st.targets if isinstance(t, ast.Name)}
+    for n in walk_shallow(f.node):
+        if isinstance(n, ast.Subscript) and isinstance(n.ctx, ast.Store) and isinstance(n.value, ast.Name) and n.value.id in attr_dicts \
+                and isinstance(n.slice, ast.Constant) and isinstance(n.slice.value, str):
+            keys.add(n.slice.value)
+    ctx.require(keys, f"{rid}: _add_input writes no per-edge index next to the weight (anchor vanished)")
+    for k in list(keys):
+        for a, b in (("source", "target"), ("target", "source")):
+            if a in k:
+                keys.add(k.replace(a, b))
+    return keys
+
+
+def _truth_tested(n: ast.AST) -> Optional[ast.AST]:
+    """The construct that branches on the truthiness of expression n (if / while / conditional expression / not / and / or), else None."""
+    p = parent(n)
+    if isinstance(p, (ast.If, ast.While, ast.IfExp)) and p.test is n:
+        return p
+    if isinstance(p, ast.UnaryOp) and isinstance(p.op, ast.Not):
+        return p
+    if isinstance(p, ast.BoolOp):
+        if n is not p.values[-1]:
+            return p
+        return _truth_tested(p)
+    if isinstance(p, ast.Call) and isinstance(p.func, ast.Name) and p.func.id == "bool" and p.args and p.args[0] is n:
+        return p
+    return None
+
+
+def r8_column_index_by_presence(ctx, rid):
+    """_add_input gives edge i of a multi-column input the attribute `source_idx = i`; column 0 is a legal index.  Code that
+    consumes the attribute must tell "no index given" from "index 0": by membership (`k in d`), by comparing a looked-up value with
+    None, or by a look-up that raises - never by the truthiness of the looked-up index (`d.get(k) or ...`, `x = d.pop(k, None)` ...
+    `if x`), which sends column 0 down the 'no index' path (the edge then carries all columns and the first target is driven by the
+    wrong signal)."""
+    keys = _edge_index_keys(ctx, rid)
+    funcs = ctx.repo.all_functions([REL])
+    from ._pitfall_lints import truthiness_of_optional_lookup
+    shared = {}
+    for f, site, why, lk in truthiness_of_optional_lookup(ctx, funcs):
+        if isinstance(lk, ast.Call) and lk.args and isinstance(lk.args[0], ast.Constant) and lk.args[0].value in keys:
+            shared[id(lk)] = (site, why)
+    n_presence = 0
+    for f in funcs:
+        rd = ctx.rd(f)
+        nodes = list(walk_shallow(f.node))
+        lookups = [n for n in nodes if isinstance(n, ast.Call) and isinstance(n.func, ast.Attribute) and n.func.attr in ("get", "pop", "setdefault")
+                   and n.args and isinstance(n.args[0], ast.Constant) and n.args[0].value in keys]
+        members = [n for n in nodes if isinstance(n, ast.Compare) and len(n.ops) == 1 and isinstance(n.ops[0], (ast.In, ast.NotIn))
+                   and isinstance(n.left, ast.Constant) and n.left.value in keys]
+        if not lookups and not members:
+            continue
+        # is the stored value a scalar here?  (wrapped into a one-element list, used as a position)
+        scalar = set()
+        for n in nodes:
+            if isinstance(n, ast.List) and len(n.elts) == 1:
+                e = n.elts[0]
+                if e in lookups:
+                    scalar.add(e.args[0].value)
+                elif isinstance(e, ast.Subscript) and isinstance(e.slice, ast.Constant) and e.slice.value in keys:
+                    scalar.add(e.slice.value)
+                elif isinstance(e, ast.Name):
+                    for d in rd.defs_reaching(e):
+                        v = assigned_value(d, e.id)
+                        if v in lookups:
+                            scalar.add(v.args[0].value)
+        seen: Dict[str, int] = {}
+        for m in ordered(members):
+            txt = norm(m)
+            seen[txt] = seen.get(txt, 0) + 1
+            n_presence += 1
+            ctx.ok(rid, f, m, f"whether the edge carries `{m.left.value}` is decided by membership", label=f"presence of {m.left.value}: {txt}"
+                   + (f" #{seen[txt]}" if seen[txt] > 1 else ""))
+        for lk in ordered(lookups):
+            key = lk.args[0].value
+            has_default = lk.func.attr == "get" or len(lk.args) > 1
+            if not has_default:
+                continue              # `d.pop(k)` raises when absent: not a presence decision
+            txt = norm(lk)
+            seen[txt] = seen.get(txt, 0) + 1
+            label = f"look-up of {key}: {txt}" + (f" #{seen[txt]}" if seen[txt] > 1 else "")
+            tests, none_tests = [], []
+            t = _truth_tested(lk)
+            if t is not None:
+                tests.append(t)
+            st = lk
+            while not isinstance(st, ast.stmt):
+                st = parent(st)
+            if isinstance(st, ast.Assign) and st.value is lk and len(st.targets) == 1 and isinstance(st.targets[0], ast.Name):
+                nm = st.targets[0].id
+                for n in nodes:
+                    if isinstance(n, ast.Name) and n.id == nm and isinstance(n.ctx, ast.Load) and any(d is st for d in rd.defs_reaching(n)):
+                        t = _truth_tested(n)
+                        if t is not None:
+                            tests.append(t)
+                        par = parent(n)
+                        if isinstance(par, ast.Compare) and len(par.ops) == 1 and isinstance(par.ops[0], (ast.Is, ast.IsNot)) \
+                                and any(isinstance(x, ast.Constant) and x.value is None for x in [par.left] + par.comparators):
+                            none_tests.append(par)
+            if id(lk) in shared and not tests:
+                tests.append(shared[id(lk)][0])
+            n_presence += 1
+            if not tests:
+                ctx.ok(rid, f, lk, f"the looked-up `{key}` is never tested by truthiness"
+                       + (" (compared with None)" if none_tests else " (handed on as it is)"), label=label, nontrivial=bool(none_tests))
+            elif key in scalar:
+                ctx.violation(rid, f, tests[0], f"`{norm(lk)}` is tested by truthiness in `{norm(tests[0])[:90]}` while the stored value is a single "
+                                                f"index (it is wrapped into a one-element list here): index 0 - the first column of a "
+                                                f"multi-column input, written by _add_input - is treated like 'no index given', so that edge "
+                                                f"carries all columns and its target is driven by the wrong signal",
+                              {"test": norm(tests[0])}, label=label)
+            else:
+                raise AnalysisError(f"{rid}: `{norm(lk)}` in {f.qualname} is tested by truthiness (`{norm(tests[0])[:80]}`) and it is unclear "
+                                    f"whether the stored value is a single index or a list (unrecognised form)")
+    ctx.require(n_presence >= 1, f"{rid}: no place found where the presence of {sorted(keys)} on an edge is decided")
+
+
 RULES = [
     ("C06-R1", r1_namespaces, 11),     # 22 on the pinned tree; merging duplicated look-ups into helpers lowers the count
     ("C06-R2", r2_label_data_lockstep, 4),
@@ -1650,4 +1781,5 @@ RULES = [
     ("C06-R5", r5_index_lists_applied, 2),
     ("C06-R6", r6_identifier_not_consumed, 7),      # one per resolver (3 today) + one per call site (18 today, require >= 6)
     ("C06-R7", r7_per_node_decision_not_shared, 2),      # one per outermost loop of the resolver closure (+ one per memo)
+    ("C06-R8", r8_column_index_by_presence, 1),
 ]
